@@ -488,6 +488,8 @@ func fmtBinary(run *ev.Run, prop string) (int64, int64) {
 		"BIN := \"bin/x\"\n# Builds\ntask build(lint, \"**/*.go\", \"go.mod\") -> (BIN, \"build.log\") {\n    go build ./...\n}\n\ntask lint(\"**/*.go\") {\n    echo lint\n}\n",
 		"OUT := join(\"a\", \"b\")\ntask a(b, \"x\", c, \"y\") -> (\"o\", OUT, \"p\") { echo {{.OUT}} }\ntask b() {}\ntask c() {}\n",
 		"V := exec(\"echo hi\")\nW := \"w\"\ntask t(\"*.md\", u) -> W {\n    echo {{.V}} {{.W}}\n}\ntask u(\"a\", \"b\", \"c\", \"d\") {}\n",
+		// builtin arguments that look like interpolations
+		"ROOT := \"r\"\nV := exec(\"echo {{.ROOT}}\")\nW := join(\"{{.ROOT}}\", \"b\")\n\ntask t(\"{{.ROOT}}/x\") -> \"{{.ROOT}}.out\" {\n    echo {{.V}} {{.W}}\n}\n",
 		// runs of spaces and tabs inside comments, docstrings, strings and commands
 		"# target    what it does\n# ------    ------------\n# build     compiles   everything\nNAME := \"a    b\"\n\n# Builds    the     thing\ntask build(\"x    y.txt\") -> \"out    dir\" {\n    echo a    b\n    echo '    indented'\n}\n",
 		"# col\tcol\tcol\nTAB := \"a\tb\"\n\n# doc\twith\ttabs\ntask t(\"a\tb\") {\n    printf 'x\\ty'\t\"z\"\n}\n",
